@@ -74,6 +74,8 @@ class World:
         self.tls = "+tls" in delivery
         self.pooled = "+pooled" in delivery  # use_pooling=True: every node gets a PooledClient
         self.ra = 1 if "+ra1" in delivery else 0
+        if "+v1" in delivery:
+            version = 1  # a young cluster: the configuration version is smaller than the number of nodes
         delivery = delivery.split("+")[0]
         self.net = stacks.new_net(None, servers=())
         self.net.tls_required = self.tls
@@ -405,8 +407,8 @@ def run(chk):
     jobs = []
     for use_vpc in (True, False):
         for n0 in range(1, 7):
-            for delivery in ("whole", "byte", "whole+tls", "whole+pooled", "whole+pooled+ra1", "whole+ra1"):
-                if "+" in delivery and n0 not in (2, 3):
+            for delivery in ("whole", "byte", "whole+tls", "whole+pooled", "whole+pooled+ra1", "whole+ra1", "whole+v1"):
+                if "+" in delivery and n0 not in ((2, 3) if "+v1" not in delivery else (2, 3, 5)):
                     continue
                 jobs.append(("bfs", use_vpc, delivery, n0, chk.tier))
         for n0 in ((1, 3) if chk.tier == "quick" else (1, 2, 3, 6)):
